@@ -7,13 +7,13 @@ from ..run.core import V, abnormal
 ID = "C10"
 LEVEL = "exploration"
 NEEDS = {"lib": ["dev", "release"], "cli": ["dev", "release"]}
-RULE = ("msg.hash(bytes) events for every length 0..1100, 10^k-1/10^k/10^k+1 (k<=5 quick, <=6 thorough), all byte values, invalid UTF-8, "
+RULE = ("msg.hash(bytes) events for every length 0..1100, 10^k-1/10^k/10^k+1 (k<=6 quick, <=7 thorough), all byte values, invalid UTF-8, "
         "content that looks like the prefix or like digits, compared with own Keccak-256 of 0x19 'Ethereum Signed Message:\\n' "
         "decimal(len) m; CLI `hash message` and `sign message` through file and stdin (the signature must recover to the account "
         "over that digest). distinct = distinct messages; non-trivial = digest compared")
 REQUIRED = (["len-0", "len-1-digit", "len-2-digits", "len-3-digits", "len-4-digits", "len-5-digits", "len-6-digits", "invalid-utf8",
              "looks-like-prefix", "all-byte-values", "cli-hash-file", "cli-hash-stdin", "cli-sign-recovers", "len-9", "len-10", "len-99",
-             "len-100", "len-999", "len-1000", "len-9999", "len-10000", "len-99999", "len-100000"])
+             "len-100", "len-999", "len-1000", "len-9999", "len-10000", "len-99999", "len-100000", "len-999999", "len-1000000", "len-1000001", "len-7-digits"])
 
 
 def _len_buckets(v, n):
@@ -75,7 +75,7 @@ JUDGES = {"lib": judge_lib, "cli": judge_cli}
 def shards(tier, seed):
     T = tier == "thorough"
     out = [{"name": "lengths-%d" % i, "part": i, "exhaustive": "every message length 0..1100"} for i in range(4)]
-    out.append({"name": "powers", "kmax": 6 if T else 5})
+    out += [{"name": "powers-%d" % k, "k": k} for k in range(1, (8 if T else 7))]
     out.append({"name": "content", "count": 10000 if T else 1500})
     out += [{"name": "cli-%d" % i, "count": 400 if T else 40} for i in range(8)]
     return out
@@ -86,8 +86,8 @@ def gen(shard, rng, tier):
     if name.startswith("lengths-"):
         for n in range(shard["part"], 1101, 4):
             yield from both(lib_case("lib", {"op": "msg.hash", "bytes": rand_bytes(rng, n).hex()}, {"cls": "length"}))
-    elif name == "powers":
-        for k in range(1, shard["kmax"] + 1):
+    elif name.startswith("powers-"):
+        for k in (shard["k"],):
             for n in (10**k - 1, 10**k, 10**k + 1):
                 m = rand_bytes(rng, min(n, 4096)) * (n // 4096 + 1)
                 c = lib_case("lib", {"op": "msg.hash", "bytes": m[:n].hex()}, {"cls": "power-of-ten"})
@@ -119,6 +119,10 @@ def gen(shard, rng, tier):
         for _ in range(shard["count"]):
             n = rng.choice([0, 1, 9, 10, 11, 12, 99, 100, 101, 999, 1000, 1001, 9999, 10000, rng.randrange(0, 3000)])
             m = rand_bytes(rng, n)
+            if rng.random() < 0.3:
+                # bytes that text-oriented input handling tends to eat
+                m = rng.choice([b"\n", b"hello\n", b"hello\r\n", b"\nhello", b" hello ", b"hello\n\n", b"\x00", b"hello\x00", b"\xef\xbb\xbfhello", b"\xff\n",
+                                m + b"\n", b"\n" + m])
             acc = cligen.rand_account(rng, simple=True)
             mode = rng.choice(["hash", "hash", "sign"])
             path, files, stdin_hex = cligen.input_channel(rng, m, "msg.bin")
